@@ -1,9 +1,16 @@
 package props
 
 import (
+	"encoding/json"
+	"fmt"
+	"sort"
+	"strings"
+
 	"verif/engine/core"
+	"verif/engine/explore"
 	"verif/engine/pagedrv"
 	"verif/engine/par"
+	"verif/engine/sched"
 	"verif/engine/xstate"
 )
 
@@ -45,7 +52,77 @@ func c03Alphabet(cfg pagedrv.Cfg, quick bool) []pagedrv.Op {
 }
 
 func init() {
-	register(&Check{ID: "C03", Level: "model_checking", Replay: xstate.ReplayPath, Run: runC03})
+	explore.Scenarios["seqpath"] = mkSeqPathScenario
+	register(&Check{ID: "C03", Level: "model_checking", Replay: replayC03, Run: runC03})
+}
+
+func replayC03(raw json.RawMessage) []string {
+	var hdr struct {
+		Kind string `json:"kind"`
+	}
+	json.Unmarshal(raw, &hdr)
+	if hdr.Kind == "schedule" {
+		return replayExplore(raw)
+	}
+	return xstate.ReplayDoc(raw)
+}
+
+// wide alphabet: batches of more than 12 queued writes, two writes to one
+// page in a batch (checkpoint copy + flush), many overwrite mappings
+func c03WideAlphabet() []pagedrv.Op {
+	return []pagedrv.Op{
+		{K: pagedrv.OBegin},
+		{K: pagedrv.OBegin, A: 1},
+		{K: pagedrv.OAlloc, A: 14},
+		{K: pagedrv.OWriteAll, B: pagedrv.WFull},
+		{K: pagedrv.OWriteAll, B: pagedrv.WPartial},
+		{K: pagedrv.OFreeEveryOther, A: 0},
+		{K: pagedrv.OFlushTx},
+		{K: pagedrv.OCheckpoint},
+		{K: pagedrv.OCommit},
+		{K: pagedrv.ORollback},
+		{K: pagedrv.OReopen},
+	}
+}
+
+// SeqPathParams: one sequential history whose background-writer timing is
+// explored (main thread vs. the library's writer goroutine).
+type SeqPathParams struct {
+	Cfg  string       `json:"cfg"`
+	Path []pagedrv.Op `json:"path"`
+}
+
+func mkSeqPathScenario(raw json.RawMessage) (explore.Body, error) {
+	var p SeqPathParams
+	if err := json.Unmarshal(raw, &p); err != nil {
+		return nil, err
+	}
+	cfg, ok := pagedrv.CfgByName(p.Cfg)
+	if !ok {
+		return nil, fmt.Errorf("unknown cfg %s", p.Cfg)
+	}
+	return func() []pagedrv.Violation {
+		sched.Quiet(true)
+		env, err := pagedrv.New(cfg)
+		if err != nil {
+			return []pagedrv.Violation{{Class: "engine", Msg: err.Error()}}
+		}
+		sched.LetOthersRun()
+		sched.Quiet(false)
+		for _, op := range p.Path {
+			if env.Dead {
+				break
+			}
+			if env.Enabled(op) {
+				env.Apply(op)
+			}
+		}
+		if !env.Dead && env.T == nil && env.F != nil {
+			env.Apply(pagedrv.Op{K: pagedrv.OReopen})
+		}
+		explore.SetOutcome(strings.Join(env.Obs, ","))
+		return env.Viol
+	}, nil
 }
 
 func runC03(ctx *core.Ctx, pool *par.Pool) {
@@ -59,11 +136,32 @@ func runC03(ctx *core.Ctx, pool *par.Pool) {
 		ctx.SetBudget(100 * 1e9)
 	}
 	total := xstate.Stats{}
+	var flushPaths []SeqPathParams
+	flushSig := map[string]bool{}
 	for _, cfg := range cfgs {
 		st := xstate.BFS(ctx, pool, xstate.Spec{Cfg: cfg, Alphabet: c03Alphabet(cfg, ctx.Quick()), MaxDepth: depth,
 			OnTransition: func(from *xstate.Node, s *xstate.Succ, isNew bool, _ *xstate.Node) {
 				if isNew && from.Depth >= 3 {
 					ctx.AddSample(map[string]interface{}{"cfg": cfg.Name, "history": pagedrv.PathString(append(from.Path(), s.Op))})
+				}
+				// histories that end a transaction which flushed: candidates for the writer-timing pass
+				if s.Op.K == pagedrv.OCommit || s.Op.K == pagedrv.ORollback {
+					path := append(from.Path(), s.Op)
+					flushed := false
+					sig := cfg.Name
+					for i := len(path) - 1; i >= 0; i-- {
+						sig += "," + path[i].String()
+						if path[i].K == pagedrv.OFlushTx || path[i].K == pagedrv.OFlushPage || path[i].K == pagedrv.OCheckpoint {
+							flushed = true
+						}
+						if path[i].K == pagedrv.OBegin {
+							break
+						}
+					}
+					if flushed && !flushSig[sig] {
+						flushSig[sig] = true
+						flushPaths = append(flushPaths, SeqPathParams{Cfg: cfg.Name, Path: path})
+					}
 				}
 			}})
 		total.States += st.States
@@ -71,8 +169,52 @@ func runC03(ctx *core.Ctx, pool *par.Pool) {
 		ctx.Set("depth_"+cfg.Name, st.Depth)
 		ctx.Set("closed_"+cfg.Name, st.Closed)
 	}
+	// (iii) wide histories
+	for _, cfg := range []pagedrv.Cfg{pagedrv.CfgC, pagedrv.CfgE} {
+		cfg := cfg
+		wd := 8
+		if !ctx.Quick() {
+			wd = 10
+		}
+		st := xstate.BFS(ctx, pool, xstate.Spec{Cfg: cfg, Alphabet: c03WideAlphabet(), MaxDepth: wd,
+			OnTransition: func(from *xstate.Node, s *xstate.Succ, isNew bool, _ *xstate.Node) {
+				if isNew && from.Depth >= 6 {
+					ctx.AddSample(map[string]interface{}{"cfg": cfg.Name, "wide_history": pagedrv.PathString(append(from.Path(), s.Op))})
+				}
+			}})
+		total.States += st.States
+		total.Transitions += st.Transitions
+		ctx.Set("wide_depth_"+cfg.Name, st.Depth)
+		if ctx.Quick() {
+			break
+		}
+	}
+	// (ii) every timing of the background writer for histories that flush before they end
+	var ps []interface{}
+	var names []string
+	sort.SliceStable(flushPaths, func(i, j int) bool { return len(flushPaths[i].Path) < len(flushPaths[j].Path) })
+	maxTiming := 24
+	if !ctx.Quick() {
+		maxTiming = 150
+	}
+	for i, fp := range flushPaths {
+		if i >= maxTiming {
+			break
+		}
+		ps = append(ps, fp)
+		names = append(names, fp.Cfg+":"+pagedrv.PathString(fp.Path))
+	}
+	wb := 2
+	if !ctx.Quick() {
+		wb = 3
+	}
+	execs, _, outcomes := exploreAll(ctx, pool, "seqpath", ps, names, func(int) explore.Bounds { return explore.Bounds{Preempt: wb, Dev: 1, EnvChoices: true} }, "explore")
+	ctx.Set("writer_timing_histories", len(ps))
+	ctx.Set("writer_timing_schedules", execs)
+	ctx.Set("writer_timing_bound", fmt.Sprintf("%d preemptions between the harness thread and the writer goroutine, 1 environment deviation (map iteration order / signal target)", wb))
+	ctx.Set("writer_timing_distinct_outcomes", len(outcomes))
 	ctx.Set("states", total.States)
-	ctx.Set("transitions", total.Transitions)
-	ctx.Set("traces_validated_against_impl", total.Transitions)
+	ctx.Set("transitions", total.Transitions+execs)
+	ctx.Set("traces_validated_against_impl", total.Transitions+execs)
 	ctx.Set("explanation", "every transition is an execution of the real (instrumented) implementation compared with the reference model; no separate model exists to conform")
 }
